@@ -192,6 +192,8 @@ struct WorkerOut {
     violations: Vec<ViolationOut>,
     samples: Vec<Value>,
     max_branching: u64,
+    #[serde(default)]
+    known_repeats: u64,
 }
 
 #[derive(Serialize, Deserialize)]
@@ -277,6 +279,10 @@ fn parse_args() -> Args {
                 i += 1;
             }
             "--list" => a.list = true,
+            "--known-file" => {
+                let _ = KNOWN_FILE.set(v[i + 1].clone());
+                i += 1;
+            }
             "--prop" => {
                 let _ = SELECTED_PROPERTY.set(v[i + 1].clone());
                 i += 1;
@@ -290,6 +296,23 @@ fn parse_args() -> Args {
 }
 
 static SELECTED_PROPERTY: std::sync::OnceLock<String> = std::sync::OnceLock::new();
+static KNOWN_FILE: std::sync::OnceLock<String> = std::sync::OnceLock::new();
+
+/// signatures (`harness|tag|site`) listed with status "known" for `property`
+fn known_signatures(property: &str) -> Vec<String> {
+    let Some(p) = KNOWN_FILE.get() else { return Vec::new() };
+    let Ok(txt) = std::fs::read_to_string(p) else { return Vec::new() };
+    let Ok(v) = serde_json::from_str::<Value>(&txt) else { return Vec::new() };
+    v["findings"]
+        .as_array()
+        .map(|a| {
+            a.iter()
+                .filter(|f| f["status"] == "known" && f["property"] == property)
+                .filter_map(|f| f["signature"].as_str().map(|s| s.to_string()))
+                .collect()
+        })
+        .unwrap_or_default()
+}
 
 /// A harness that serves several properties with one exploration and different oracle sets is
 /// started with `--prop <id>`; it reads the selection here (workers inherit it).
@@ -354,6 +377,10 @@ struct Run<'a, H: Harness> {
     keys: HashSet<u64>,
     deadline: Instant,
     max_viol: usize,
+    known: Vec<String>,
+    /// violations that are not listed as known findings (only these count towards max_viol)
+    unlisted: usize,
+    seen_known: HashSet<String>,
 }
 
 impl<H: Harness> Run<'_, H> {
@@ -364,6 +391,16 @@ impl<H: Harness> Run<'_, H> {
     }
 
     fn violation(&mut self, ops: &[H::Op], f: Fail, mode: &str) {
+        let sig = format!("{}|{}|{}", self.h.name(), f.tag, f.site);
+        if self.known.contains(&sig) {
+            // a known finding: keep one (the first) witness per signature, do not stop for it
+            if !self.seen_known.insert(sig) {
+                self.out.known_repeats += 1;
+                return;
+            }
+        } else {
+            self.unlisted += 1;
+        }
         self.out.violations.push(ViolationOut {
             cfg_idx: self.cfg_idx,
             cfg: serde_json::to_value(self.cfg).unwrap(),
@@ -461,7 +498,7 @@ impl<H: Harness> Run<'_, H> {
                     self.out.timed_out = true;
                     return;
                 }
-                if self.out.violations.len() >= self.max_viol {
+                if self.unlisted >= self.max_viol {
                     return;
                 }
                 if plan.finish_prefixes {
@@ -540,7 +577,7 @@ impl<H: Harness> Run<'_, H> {
                 self.out.frontier_complete = false;
                 break;
             }
-            if self.out.violations.len() >= self.max_viol {
+            if self.unlisted >= self.max_viol {
                 self.out.frontier_complete = false;
                 break;
             }
@@ -594,6 +631,9 @@ fn worker_main<H: Harness>(h: &H, args: &Args, cfg_idx: usize, w: u32, ww: u32) 
             keys: HashSet::new(),
             deadline: Instant::now() + Duration::from_secs_f64(budget),
             max_viol: h.max_violations_per_worker(),
+            known: known_signatures(h.property()),
+            unlisted: 0,
+            seen_known: HashSet::new(),
         };
         run.tree(plan, w, ww);
         if let (Some((ms, md)), 0) = (plan.frontier, w) {
@@ -723,6 +763,9 @@ fn parent_main<H: Harness>(h: &H, args: &Args) -> i32 {
             cmd.arg("--tier").arg(&args.tier_s).arg("--out").arg(&out).arg("--budget").arg(budget.to_string());
             if let Some(p) = selected_property() {
                 cmd.arg("--prop").arg(p);
+            }
+            if let Some(k) = KNOWN_FILE.get() {
+                cmd.arg("--known-file").arg(k);
             }
             cmd.stdin(Stdio::null());
             match cmd.spawn() {
